@@ -89,7 +89,7 @@ structure Cert where
   issuerLE : Bool     -- Issuer.Organization == ["Let's Encrypt"]
   pub : KT            -- type of leaf.PublicKey
   priv : KT           -- type of the private key (rsa / ec)
-  keyMatch : Bool     -- same type and the public parts are equal
+  keyMatch : Bool     -- same type and the public keys are equal: X and Y (ECDSA), modulus N and exponent E (RSA)
 deriving DecidableEq, Repr
 
 structure CertKey where
